@@ -46,6 +46,16 @@ func runC02(e *core.Env) {
 			o.Near, o.NearSpread = &today, 2
 		}
 		d := gen.Document(r, o)
+		switch core.Hash64("c02-size", fmt.Sprint(e.Seed, i)) % 500 {
+		case 0: // more than a thousand records behind the generated ones
+			if x, ok := withAppended(d, manyRecordsText(r, r.PickInt(1001, 1300))); ok {
+				d = x
+			}
+		case 1: // a line beyond 64 KiB
+			if x, ok := withAppended(d, longLineText(r, r.PickInt(65536, 70000))); ok {
+				d = x
+			}
+		}
 		e.Begin(i, []byte(d.Text))
 		c02Check(e, r, d, today, nowCase)
 		e.End(i)
